@@ -1,11 +1,115 @@
-import TjdModel.Autojac.Pipeline
+/-
+  C01 — backward() deposits the aggregation of the true Jacobian into .grad.
+
+  PROPERTY THEOREMS ONLY (statements fixed; helper lemmas in TjdLemmas/AutojacLemmas.lean).
+  `backward` is the model of `torchjd.autojac.backward` (TjdModel/Autojac/Pipeline.lean):
+  Accumulate ∘ Aggregate ∘ Jac ∘ Diagonalize ∘ Init, with chunked differentiation.
+  Everything is quantified over all engines (= all autograd graphs), all tensor lists, all input
+  orderings, all aggregators `A`, all chunk sizes, all initial `.grad` contents.
+-/
+import Mathlib.Algebra.Ring.Defs
+import TjdModel.Autojac.Spec
+import TjdLemmas.AutojacLemmas
 namespace Tjd.Props.C01
 open Tjd Tjd.Autojac
 
-theorem chunkRanges_none_single (m : Nat) (hm : 0 < m) : chunkRanges m none = [(0, m)] := by
-  simp [chunkRanges]
-  have : (m + m - 1) / m = 1 := by
-    rw [Nat.div_eq_iff (by omega)]; omega
-  simp [this]
+variable {α : Type} [Semiring α]
+
+/-- hypotheses under which `backward` is specified by the property (valid call) -/
+structure ValidCall (E : Engine α) (tensors inputs : List Key) (chunk : Option Int) : Prop where
+  wf : E.WF
+  tensors_nodup : tensors.Nodup
+  inputs_nodup : inputs.Nodup
+  rows_pos : 0 < (tensors.map E.numel).sum                 -- at least one scalar to differentiate
+  chunk_pos : ∀ c, chunk = some c → 0 < c
+  outs_rg : ∀ t ∈ tensors, E.requiresGrad t = true
+  ins_ok : ∀ i ∈ inputs, E.requiresGrad i = true ∧ E.expectsGrad i = true
+
+/-- MAIN THEOREM.  On a valid call, if the aggregator maps the true Jacobian `J(tensors, inputs)` to
+    `v` (of the right length), then `backward` succeeds, every input `k` has its `.grad` increased by
+    exactly its own slice of `v`, and no other `.grad` changes. -/
+theorem backward_eq_spec (E : Engine α) (tensors inputs : List Key)
+    (A : Mat α → Except Err (Vec α)) (chunk : Option Int) (retain : Bool) (h : Grads α)
+    (hv : ValidCall E tensors inputs chunk) (hne : inputs ≠ [])
+    (v : Vec α) (hA : A (fullJac E tensors inputs) = .ok v)
+    (hlen : v.length = (inputs.map E.numel).sum) :
+    (backward E tensors inputs A chunk retain h).err = none ∧
+    ∀ k, (backward E tensors inputs A chunk retain h).grads k =
+      if k ∈ inputs then accum (h k) (sliceOf E.numel inputs k v) else h k := by
+  sorry
+
+/-- the matrix handed to the aggregator IS the true Jacobian (this is what the value theorem above
+    rests on; stated separately because C15 and C05 use it): on a valid call, `Jac ∘ Diagonalize ∘
+    Init` followed by `_unite` yields `fullJac` -/
+theorem backward_matrix_is_jacobian (E : Engine α) (tensors inputs : List Key) (chunk : Option Int)
+    (retain : Bool) (hv : ValidCall E tensors inputs chunk) (hne : inputs ≠ []) :
+    ∃ j sw, jacT E tensors inputs (chunk.map Int.toNat) retain
+        (diagonalizeT E tensors (initT E tensors)) = .ok (j, sw) ∧
+      unite ((tensors.map E.numel).sum) (inputs.map fun k => lookupD j k []) =
+        fullJac E tensors inputs := by
+  sorry
+
+/-- if the aggregator rejects the Jacobian, `backward` reports that error and no `.grad` changes -/
+theorem backward_aggregator_error (E : Engine α) (tensors inputs : List Key)
+    (A : Mat α → Except Err (Vec α)) (chunk : Option Int) (retain : Bool) (h : Grads α)
+    (hv : ValidCall E tensors inputs chunk) (hne : inputs ≠ [])
+    (e : Err) (hA : A (fullJac E tensors inputs) = .error e) :
+    (backward E tensors inputs A chunk retain h).err = some e ∧
+    (backward E tensors inputs A chunk retain h).grads = h := by
+  sorry
+
+/-- an aggregator returning a vector of the wrong length is rejected (`_disunite`), nothing changes -/
+theorem backward_wrong_length (E : Engine α) (tensors inputs : List Key)
+    (A : Mat α → Except Err (Vec α)) (chunk : Option Int) (retain : Bool) (h : Grads α)
+    (hv : ValidCall E tensors inputs chunk) (hne : inputs ≠ [])
+    (v : Vec α) (hA : A (fullJac E tensors inputs) = .ok v)
+    (hlen : v.length ≠ (inputs.map E.numel).sum) :
+    (backward E tensors inputs A chunk retain h).err = some Err.value ∧
+    (backward E tensors inputs A chunk retain h).grads = h := by
+  sorry
+
+/-- with no inputs nothing is differentiated and nothing changes -/
+theorem backward_no_inputs (E : Engine α) (tensors : List Key) (A : Mat α → Except Err (Vec α))
+    (chunk : Option Int) (retain : Bool) (h : Grads α)
+    (hc : ∀ c, chunk = some c → 0 < c) (ht : tensors ≠ []) (hnd : tensors.Nodup) :
+    (backward E tensors [] A chunk retain h).err = none ∧
+    (backward E tensors [] A chunk retain h).grads = h := by
+  sorry
+
+/-- an input that no listed tensor depends on contributes an all-zero column block to the Jacobian -/
+theorem fullJac_unreachable_zero (E : Engine α) (tensors inputs : List Key) (k : Key)
+    (hk : ∀ t ∈ tensors, E.jac t k = none) (row : Vec α) (hrow : row ∈ fullJac E tensors (k :: inputs)) :
+    row.take (E.numel k) = zeros (E.numel k) := by
+  sorry
+
+/-- ORDER INDEPENDENCE.  Reordering the inputs permutes the columns of the Jacobian; if the
+    aggregator commutes with column permutations (every aggregator of the library does: C08), each
+    input receives the same slice whatever the order.  `permCols p` reorders a row by the index list
+    `p`. -/
+def permCols (p : List Nat) (row : Vec α) : Vec α := p.map fun c => row.getD c 0
+
+def ColumnEquivariant (A : Mat α → Except Err (Vec α)) : Prop :=
+  ∀ (J : Mat α) (n : Nat) (p : List Nat), J ≠ [] → p.Perm (List.range n) →
+    (∀ row ∈ J, row.length = n) → A (J.map (permCols p)) = (A J).map (permCols p)
+
+theorem backward_order_indep (E : Engine α) (tensors I I' : List Key)
+    (A : Mat α → Except Err (Vec α)) (hA : ColumnEquivariant A) (hE : E.WF)
+    (hI : I.Nodup) (hperm : I.Perm I') (hrows : 0 < (tensors.map E.numel).sum)
+    (v : Vec α) (hv : A (fullJac E tensors I) = .ok v) (hlen : v.length = (I.map E.numel).sum) :
+    ∃ v', A (fullJac E tensors I') = .ok v' ∧
+      ∀ k ∈ I, sliceOf E.numel I k v = sliceOf E.numel I' k v' := by
+  sorry
+
+/-- the hypothesis of `backward_order_indep` is satisfiable: `Sum()` and `Constant(w)` commute with
+    column permutations -/
+theorem sumAgg_columnEquivariant : ColumnEquivariant (sumAgg : Mat α → Except Err (Vec α)) := by
+  sorry
+
+theorem constAgg_columnEquivariant (w : Vec α) : ColumnEquivariant (constAgg w) := by
+  sorry
+
+/-! non-vacuity: a concrete engine over ℤ-like scalars meeting `ValidCall` is exhibited in
+    TjdProps/C01Example.lean (two outputs of shapes [] and [2], three inputs of shapes [], [2,1], [3],
+    one of them unreachable, Constant weights [1,2,-3], chunk 2). -/
 
 end Tjd.Props.C01
